@@ -35,7 +35,39 @@ ENGINE_TB = [
 for _p in ("C01", "C02", "C03", "C04", "C05", "C06", "C07", "C08"):
     EXTRA_TB[_p] = list(ENGINE_TB)
 
+EXTRA_TB["C16"] = [
+  "Model/MySqlString.v is a hand transcription of sqlparser v2.0.3 token.go (scanString/scanStringSlow/SQLDecodeMap and the Scan dispatcher as a byte machine); it is validated on every run against the REAL tokenizer: string-token values and token start offsets of every template and every output",
+  "sqlparser's grammar and genql's evaluator are oracles: AST shape (literals normalised) and echo / WHERE-filter results are observed on the real code and compared with the specification, not modelled",
+  "strconv.FormatInt = Base/Fmt.Z_to_dec; strconv.FormatFloat(x,'f',-1,64) is modelled exactly where the exact decimal expansion has <= 15 significant digits (fmt_f) and is an oracle elsewhere; utf8.DecodeRuneInString is transcribed (decode_rune)",
+]
+EXTRA_TB["C20"] = [
+  "Model/Vars.v mirrors functions.go GetVarFunc/SetVarFunc (Guard, key = %v of the first argument, nil-map write = panic, Ommit result) and the order plsql.go reaches them in (WHERE over all rows first, rows in source order, items left to right, arguments left to right, exec's recover frame); the caller's map is an explicit argument/result",
+  "expressions are evaluated by Model/Eval.v with its call hook instantiated by a read-only view of the current store; sync.RWMutex is not modelled (locking belongs to C13)",
+  "Spec/VarsHistory.v (what a select list denotes as a register history) is part of the statement of C20_linearisation and is read, not proved",
+]
+
 ASSUME = {
+    "C04": [
+  "wf_join: both sides are aliased rows {alias: row} with distinct aliases; ON is an AND/OR combination of comparisons between one x.col and one y.col; key values are scalars whose %v text determines them within a column (text_faithful: one scalar kind per key column) and zero_safe per comparison; hash theorems additionally need hash_faithful (vcompare = 0 <-> equal key text after -0 normalisation), discharged from FloatAxioms.eqb_spec/ltb_spec for numbers",
+  "outside the premises (mixed-kind key column such as 9 and \"9\", or -0 against a string) the engine groups rows by key text and may deviate from the textbook; refuted-lemmas record the witnesses; the property speaks of keys of either scalar kind per column, so these are scope limits, not findings",
+  "Go's sync.Mutex / WaitGroup semantics are an oracle for the PARALLEL theorem's thread program; INTO and USING joins are not modelled",
+    ],
+    "C16": [
+  "templates are well-formed for the consumer (Spec/C16Spec.wf_template): a $n placeholder stands at a token boundary, has <= 18 digits; no quote glued into an @variable; x'..'/b'..' literals well-formed; no empty backtick identifier; a float exponent sign is followed by a digit",
+  "[]byte and time.Time arguments are outside the property (string, integer, float, boolean, NULL) and not modelled",
+  "C16_shape is proved per literal (C16_shape_partial + C16_shape_partial_text); the template-level token equality (shape_ok) is evaluated by the correspondence check on the real output of every generated case",
+    ],
+    "C20": [
+  "SETVAR is modelled where it is a whole select item; nested inside another expression, inside WHERE, or under a qualifier it is OutOfModel; GETVAR may occur anywhere inside SETVAR's value expression and in WHERE; register names are call-free expressions of the row",
+  "queries are single-table SELECTs (or FROM dual) without GROUP BY / DISTINCT / ORDER BY / LIMIT / joins / subqueries; WHERE is evaluated for all rows before any select item",
+  "a query that fails half-way keeps the writes made until then (no rollback) and this is compared too",
+  "C20_across_queries is stated for queries without WHERE and a history that is not cut short; otherwise covered per query by C20_across_queries_step + C20_linearisation_where",
+    ],
+    "C07": [
+  "staging theorems: the outer SELECT is in the filter/projection/aggregate/order grammar (blind_select), the inner statement does not read the CTE being defined (avoids), inner results are arrays; results other than OutOfModel (fuel monotonicity excludes it)",
+  "a subquery cannot see the enclosing query's CTEs through `<-` in the model (sub_ctx drops them) whereas the real code keeps the thunk in the data map; the generators do not produce that shape; the real code satisfies composed = staged there as well",
+  "EXISTS with a select list other than * : only the implication is proved (C07_exists_select_list_partial); on a column-name clash the outer row's value wins, as in the code",
+    ],
     "C06": ["row equivalence = veqb (numbers by IEEE == plus sign of zero, NaN = NaN); FeqLaws (symmetry, transitivity of feqb) is a premise discharged from the stdlib's FloatAxioms.eqb_spec; the sha256 fingerprint over the %#v text is assumed injective",
             "UNION theorems assume branch rows are objects with sorted unique keys (what the engine produces), so that the union's SELECT * is the identity"],
     "C08": ["nested claims for `simple` queries (no DISTINCT / ORDER BY / LIMIT / GROUP BY at the outer level: the property speaks of filter/projection queries); the mix=> half additionally needs plain_query (no aggregates or subqueries): SELECT a, COUNT(*) legitimately differs between a nested source and its flattening"],
@@ -82,6 +114,7 @@ CONFIG = {
     "C15": {"shard": 600},
     "C09": {"shard": 200},
     "C17": {"shard": 400},
+    "C16": {"shard": 300}, "C20": {"shard": 90},
     "C11": {"shard": 300}, "C10": {"shard": 300}, "C12": {"shard": 150},
     "C01": {"shard": 120}, "C02": {"shard": 120}, "C03": {"shard": 100}, "C04": {"shard": 110},
     "C05": {"shard": 120}, "C06": {"shard": 100}, "C07": {"shard": 100}, "C08": {"shard": 100},
